@@ -55,6 +55,8 @@ pub struct Chunky<'a> {
 impl<'a> std::io::Read for Chunky<'a> {
     fn read(&mut self, buf: &mut [u8]) -> std::io::Result<usize> {
         self.calls += 1;
+        // bound of the claim: at most 6 read calls (assumed here, before the retry loop continues)
+        assume(self.calls <= 6);
         let mode: u8 = any();
         assume(mode < 3);
         if mode == 1 {
@@ -79,7 +81,6 @@ fn std_read_exact<const L: usize>() where [u8; L]: crate::sym::Sym {
     let mut rd = Chunky { data: &data[..], pos: 0, calls: 0, eof_seen: false };
     let mut out = [0u8; L];
     let r = ReadNoStd::read_exact(&mut rd, &mut out[..]);
-    assume(rd.calls <= 6);
     match r {
         Ok(()) => {
             crate::cover!(rd.calls > 1, "fragmented or retried");
@@ -108,7 +109,6 @@ pub fn c14_chunky_u32() {
         let mut rp = ReaderWithPos::new(&mut rd);
         r = u32::_deserialize_full_inner(&mut rp);
     }
-    assume(rd.calls <= 6);
     match r {
         Ok(y) => { crate::cover!(rd.calls > 1, "fragmented"); assert!(y == x && !rd.eof_seen, "C14: fragmentation changes the value"); }
         Err(DE::ReadError) => { crate::cover!(true, "ReadError"); assert!(rd.eof_seen, "C14: read error without a reader failure"); }
@@ -127,7 +127,6 @@ pub fn c14_chunky_optu8() {
         let mut rp = ReaderWithPos::new(&mut rd);
         r = <Option<u8>>::_deserialize_full_inner(&mut rp);
     }
-    assume(rd.calls <= 6);
     match r {
         Ok(y) => { crate::cover!(rd.calls > 2, "fragmented"); assert!(y == x && !rd.eof_seen, "C14: fragmentation changes the value"); }
         Err(DE::ReadError) => { crate::cover!(true, "ReadError"); assert!(rd.eof_seen, "C14: read error without a reader failure"); }
@@ -158,7 +157,6 @@ pub fn c14_twin_reach() {
     let mut rd = Chunky { data: &data[..], pos: 0, calls: 0, eof_seen: false };
     let mut out = [0u8; 4];
     let r = ReadNoStd::read_exact(&mut rd, &mut out[..]);
-    assume(rd.calls <= 6);
     let ok = r.is_ok();
     core::mem::forget(r);
     assert!(ok, "TWIN: must be violated (early EOF exists)");
